@@ -224,6 +224,40 @@ def correspond(ctx):
             dis.append(Disagreement('c14.hull', 'hull:convex', 'rubberband baseline is not convex', dict(meta, check='convex'), True))
         if not np.allclose(b1, b + c, rtol=0, atol=1e-9 * (scale + abs(c))):
             dis.append(Disagreement('c14.shift', 'shift:rubberband', 'rubberband does not commute with a shift', dict(meta, check='shift'), True))
+    # rubberband with several segments (integer and explicit boundaries): every segment gets its own lower hull; the baseline
+    # stays at or below the data everywhere, touches it at both ends of the data, and commutes with shifts
+    for _ in range(40 if ctx.thorough else 16):
+        n = int(rng.integers(5, 45))
+        seg = int(rng.integers(2, 5))
+        if rng.random() < 0.3:
+            cuts = sorted(set(int(v) for v in rng.integers(2, n - 2, seg - 1))) if n > 6 else [n // 2]
+            segarg = [c_ for c_ in cuts if 1 < c_ < n - 1] or [n // 2]
+        else:
+            segarg = seg
+        x = np.cumsum(rng.integers(1, 5, n)).astype(float) if rng.random() < 0.5 else np.arange(n, dtype=float)
+        y = data_1d(rng, n, KINDS[int(rng.integers(0, len(KINDS)))])
+        if rng.random() < 0.4:
+            y = y - 0.35 * np.arange(n)            # falling data: the tail is the lowest part
+        c = float(rng.integers(-50, 51))
+        meta = {'method': 'rubberband', 'x': x.tolist(), 'y': y.tolist(), 'shift': c, 'segments': segarg}
+        try:
+            b, p = Baseline(x).rubberband(y, segments=segarg)
+            b1, p1 = Baseline(x).rubberband(y + c, segments=segarg)
+        except Exception:
+            ctx.count('rubberband-segments:raises')
+            continue
+        ctx.case(('rubberband-segments', n, repr(segarg), tuple(y.tolist())), nontrivial=True)
+        ctx.count('rubberband-segments')
+        scale = max(1.0, float(np.max(np.abs(y))))
+        if np.any(b > y + 1e-9 * scale):
+            k = int(np.argmax(b - y))
+            dis.append(Disagreement('c14.le', 'le:rubberband:segments', f'rubberband(segments={segarg}, N={n}) baseline exceeds the data at index {k} '
+                                    f'({b[k]:.6g} > {y[k]:.6g})', dict(meta, check='le'), True))
+        elif abs(b[0] - y[0]) > 1e-9 * scale or abs(b[-1] - y[-1]) > 1e-9 * scale:
+            dis.append(Disagreement('c14.hull', 'hull:touch:segments', f'rubberband(segments={segarg}, N={n}) does not touch the data at its end points',
+                                    dict(meta, check='touch'), True))
+        if not np.allclose(b1, b + c, rtol=0, atol=1e-9 * (scale + abs(c))):
+            dis.append(Disagreement('c14.shift', 'shift:rubberband:segments', 'rubberband with segments does not commute with a shift', dict(meta, check='shift'), True))
     res = drive(lines)
     ctx.traces += len(lines)
     for ln, r, (real, meta, exact) in zip(lines, res, checks):
